@@ -176,7 +176,7 @@ type corpusRun map[string]map[string][]string // dir -> block key -> lines
 
 // corpusBatch runs every directory under (cfg, mode) in batch processes.
 func (e *engine) corpusBatch(wg *sync.WaitGroup, cfg Config, mode string, dirs []string, sink func(dir string, raw *Raw)) {
-	const dirsPerUnit = 8
+	const dirsPerUnit = 3
 
 	for lo := 0; lo < len(dirs); lo += dirsPerUnit {
 		hi := lo + dirsPerUnit
@@ -255,110 +255,129 @@ func (e *engine) corpus() {
 
 	var stable, noisy, compared int64
 
+	var all sync.WaitGroup
+
 	for gi, g := range e.plan.CorpusGroups {
 		for _, mode := range e.plan.CorpusModes {
-			// Two independent baseline runs: only blocks equal in both count.
-			var wg sync.WaitGroup
+			gi, g, mode := gi, g, mode
 
-			base := [2]corpusRun{{}, {}}
-			baseCoarse := [2]corpusRun{{}, {}}
-			done := [2]map[string]bool{{}, {}}
+			all.Add(1)
 
-			for k := 0; k < 2; k++ {
-				k := k
+			go func() {
+				defer all.Done()
 
-				e.corpusBatch(&wg, g.Base, mode, dirs, func(dir string, raw *Raw) {
-					b, _ := blocks(raw, e.plan.OutOnly)
-					c := coarse(raw)
+				// Two independent baseline runs: only blocks equal in both count.
+				var wg sync.WaitGroup
 
-					mu.Lock()
-					base[k][dir] = b
-					baseCoarse[k][dir] = c
-					done[k][dir] = raw.Done
-					mu.Unlock()
-				})
-			}
+				base := [2]corpusRun{{}, {}}
+				baseCoarse := [2]corpusRun{{}, {}}
+				done := [2]map[string]bool{{}, {}}
 
-			wg.Wait()
+				for k := 0; k < 2; k++ {
+					k := k
 
-			// ref: per-test view; refCoarse: the view used against --trace.
-			ref, refCoarse := corpusRun{}, corpusRun{}
+					e.corpusBatch(&wg, g.Base, mode, dirs, func(dir string, raw *Raw) {
+						b, _ := blocks(raw, e.plan.OutOnly)
+						c := coarse(raw)
 
-			for _, d := range dirs {
-				ref[d] = map[string][]string{}
-				refCoarse[d] = map[string][]string{}
-
-				if !done[0][d] || !done[1][d] {
-					noisy++
-
-					continue
+						mu.Lock()
+						base[k][dir] = b
+						baseCoarse[k][dir] = c
+						done[k][dir] = raw.Done
+						mu.Unlock()
+					})
 				}
 
-				for k, v := range baseCoarse[0][d] {
-					if w, ok := baseCoarse[1][d][k]; ok && eqLines(v, w) {
-						refCoarse[d][k] = v
-					}
-				}
+				wg.Wait()
 
-				for k, v := range base[0][d] {
-					if w, ok := base[1][d][k]; ok && eqLines(v, w) {
-						ref[d][k] = v
-						stable++
+				// ref: per-test view; refCoarse: the view used against --trace.
+				ref, refCoarse := corpusRun{}, corpusRun{}
 
-						if strings.HasPrefix(k, "#") {
-							continue
-						}
+				for _, d := range dirs {
+					ref[d] = map[string][]string{}
+					refCoarse[d] = map[string][]string{}
 
-						e.r.Distinct("corpus|" + mode + "|" + d + "|" + k)
-					} else {
+					if !done[0][d] || !done[1][d] {
+						mu.Lock()
 						noisy++
+						mu.Unlock()
+
+						continue
 					}
-				}
-			}
 
-			for ci, cfg := range g.Configs {
-				ci, cfg := ci, cfg
-
-				want := ref
-				if cfg.Diag == "trace" {
-					want = refCoarse
-				}
-
-				e.corpusBatch(&wg, cfg, mode, e.dirsFor(cfg, dirs), func(dir string, raw *Raw) {
-					b := view(raw, e.plan.OutOnly, cfg)
-					differs := !raw.Done
-
-					n := 0
-
-					var diff []string
-
-					for k, v := range want[dir] {
-						n++
-
-						if w, ok := b[k]; !ok || !eqLines(v, w) {
-							differs = true
-
-							diff = append(diff, k+"\x00"+strings.Join(w, "\x01"))
+					for k, v := range baseCoarse[0][d] {
+						if w, ok := baseCoarse[1][d][k]; ok && eqLines(v, w) {
+							refCoarse[d][k] = v
 						}
 					}
 
-					sort.Strings(diff)
+					for k, v := range base[0][d] {
+						if w, ok := base[1][d][k]; ok && eqLines(v, w) {
+							ref[d][k] = v
 
-					e.r.Eval(n)
+							mu.Lock()
+							stable++
+							mu.Unlock()
 
-					mu.Lock()
-					compared += int64(n)
+							if strings.HasPrefix(k, "#") {
+								continue
+							}
 
-					if differs && len(want[dir]) > 0 {
-						cands = append(cands, cand{gi, ci, mode, dir, sigOf(diff)})
+							e.r.Distinct("corpus|" + mode + "|" + d + "|" + k)
+						} else {
+							mu.Lock()
+							noisy++
+							mu.Unlock()
+						}
 					}
-					mu.Unlock()
-				})
-			}
+				}
 
-			wg.Wait()
+				for ci, cfg := range g.Configs {
+					ci, cfg := ci, cfg
+
+					want := ref
+					if cfg.Diag == "trace" {
+						want = refCoarse
+					}
+
+					e.corpusBatch(&wg, cfg, mode, e.dirsFor(cfg, dirs), func(dir string, raw *Raw) {
+						b := view(raw, e.plan.OutOnly, cfg)
+						differs := !raw.Done
+
+						n := 0
+
+						var diff []string
+
+						for k, v := range want[dir] {
+							n++
+
+							if w, ok := b[k]; !ok || !eqLines(v, w) {
+								differs = true
+
+								diff = append(diff, k+"\x00"+strings.Join(w, "\x01"))
+							}
+						}
+
+						sort.Strings(diff)
+
+						e.r.Eval(n)
+
+						mu.Lock()
+						compared += int64(n)
+
+						if differs && len(want[dir]) > 0 {
+							cands = append(cands, cand{gi, ci, mode, dir, sigOf(diff)})
+						}
+						mu.Unlock()
+					})
+				}
+
+				wg.Wait()
+			}()
 		}
 	}
+
+	all.Wait()
 
 	e.r.Set("corpus_test_blocks_stable_in_baseline", stable)
 	e.r.Set("corpus_test_blocks_excluded_as_environment_dependent", noisy)
